@@ -4,8 +4,9 @@
 (* n algorithms, m tasks; `modes` is None (L = 0) or a tuple of L mode     *)
 (* values (1 serial, 2 thread, 3 process, 9 = not a mode).  Documented     *)
 (* shapes: one value, one per algorithm, one per task, one per pair        *)
-(* (row-major: algorithm-major).  When a length fits several shapes, each  *)
-(* fitting reading is acceptable.                                          *)
+(* (row-major: algorithm-major).  When a length fits several shapes the   *)
+(* documented order decides: "size (1) or (n) or (m) or (n*m)" - a tuple   *)
+(* of n values is one per algorithm even when n = m.                       *)
 (***************************************************************************)
 EXTENDS Integers, Sequences, FiniteSets, SequencesExt
 
@@ -35,8 +36,11 @@ MustAccept(n, m, modes) == ValidShape(n, m, Len(modes)) /\ AllModes(modes)
 \* calls = sequence of <<algorithm, task, mode, workers>> seen by the optimizers during execute()
 Count(calls, a, t) == Cardinality({k \in DOMAIN calls : calls[k][1] = a /\ calls[k][2] = t})
 EveryPairRuns(n, m, nt, calls) == \A a \in 1..n, t \in 1..m : Count(calls, a, t) = nt
+\* the reading the documentation gives a tuple of length L: first fitting shape in the documented order
+Reading(n, m, L) == IF L = 0 THEN "none" ELSE IF L = 1 THEN "one" ELSE IF L = n THEN "per_algorithm"
+                    ELSE IF L = m THEN "per_task" ELSE "per_pair"
 ModesHonoured(n, m, modes, calls) ==
-    \E r \in Readings(n, m, Len(modes)) :
+    \E r \in {Reading(n, m, Len(modes))} :
         LET tab == TableOf(r, n, m, modes)
         IN \A k \in DOMAIN calls : calls[k][1] \in 1..n /\ calls[k][2] \in 1..m /\ calls[k][3] = tab[calls[k][1]][calls[k][2]]
 =============================================================================
